@@ -70,7 +70,7 @@ class SideEffectFormulaGen(gen_formula.FormulaGen):
 
 def plan(tier, seed):
   n, steps, k = (16, 30, 7) if tier == 'quick' else (128, 60, 9)
-  return [{'scenario': 'group_evaluation'}, {'scenario': 'derived'}, {'scenario': 'summary'}] + \
+  return [{'scenario': 'group_evaluation'}, {'scenario': 'lookup_helper'}, {'scenario': 'derived'}, {'scenario': 'summary'}] + \
          [{'hseed': seed * 100003 + 29000 + i, 'steps': steps, 'calls': k} for i in range(n)]
 
 
@@ -101,12 +101,13 @@ class CallGen(object):
       return r.choice(sorted(t for t in self.S if t.startswith('_grist_'))), 'meta'
     return r.choice(['NoSuchTable', '', None, 5, 'id', '_grist_Nope', ['T']]), 'bad'
 
-  def column(self, tid):
+  def column(self, tid, prefer_formula=False):
     r = self.r
     t = self.m.tables.get(tid) if isinstance(tid, str) else None
     k = r.random()
     if t and t['cols'] and k < 0.7:
-      c = r.choice(t['cols'])
+      pool = [c for c in t['cols'] if c['formula']] if prefer_formula and r.random() < 0.7 else None
+      c = r.choice(pool or t['cols'])
       if c['isFormula']:
         cls = 'formula'
       elif c['formula']:
@@ -147,9 +148,18 @@ class CallGen(object):
   # ---- calls: each returns (function name, args, shape)
   def make(self):
     r = self.r
-    kind = r.choices(['fetch_table', 'fetch_meta_tables', 'get_formula_error', 'evaluate_formula', 'get_formula_prompt',
-                      'autocomplete', 'find_col_from_values'], [3, 0.6, 5, 5, 2, 6, 2])[0]
-    return getattr(self, 'c_' + kind)()
+    for _ in range(20):
+      kind = r.choices(['fetch_table', 'fetch_meta_tables', 'get_formula_error', 'evaluate_formula', 'get_formula_prompt',
+                        'autocomplete', 'find_col_from_values'], [3, 0.6, 5, 5, 2, 6, 2])[0]
+      name, args, shape = getattr(self, 'c_' + kind)()
+      # The trigger of the open finding lookup_index_touched_by_formula_evaluation (get_formula_error on a '#lookup...' helper
+      # column for a row the table does not have) corrupts the index for good, so the random stream does not issue it
+      # (replayed by scenario_lookup_helper on every run); existing rows are issued.
+      if name == 'get_formula_error' and isinstance(args[1], str) and args[1].startswith('#lookup') and shape[2] != 'existing':
+        self.skipped_lookup_trigger = getattr(self, 'skipped_lookup_trigger', 0) + 1
+        continue
+      return name, args, shape
+    return 'fetch_meta_tables', [], []
 
   def c_fetch_table(self):
     r = self.r
@@ -176,13 +186,13 @@ class CallGen(object):
 
   def c_get_formula_error(self):
     tid, tc = self.table()
-    cid, cc = self.column(tid)
+    cid, cc = self.column(tid, True)
     row, rc = self.row(tid)
     return 'get_formula_error', [tid, cid, row], [tc, cc, rc]
 
   def c_evaluate_formula(self):
     tid, tc = self.table()
-    cid, cc = self.column(tid)
+    cid, cc = self.column(tid, True)
     row, rc = self.row(tid)
     return 'evaluate_formula', [tid, cid, row], [tc, cc, rc]
 
@@ -403,7 +413,6 @@ def scenario_summary(acc):
     p.init_doc()
     p.apply([['AddTable', 'T', [{'id': 'A', 'type': 'Text', 'isFormula': False}, {'id': 'B', 'type': 'ChoiceList', 'isFormula': False},
                                 {'id': 'N', 'type': 'Numeric', 'isFormula': False},
-                                {'id': 'S', 'type': 'Any', 'isFormula': True, 'formula': 'T_summary_A.lookupOne(A=$A).count'},
                                 {'id': 'Bad', 'type': 'Any', 'isFormula': True, 'formula': '1 / ($N - 1)'}]]])
     p.apply([['BulkAddRecord', 'T', [None, None, None, None], {'A': ['x', 'y', 'x', ''], 'B': [['L', 'a', 'b'], ['L', 'a'], None, ['L', 'c']],
                                                               'N': [1, 2, 3, None]}]])
@@ -411,11 +420,14 @@ def scenario_summary(acc):
     p.apply([['CreateViewSection', 1, 0, 'record', [3], None]])
     p.apply([['CreateViewSection', 1, 0, 'record', [], None]])
     p.apply([['AddColumn', 'T_summary_A', 'Tot', {'isFormula': True, 'type': 'Any', 'formula': 'SUM($group.N)'}]])
+    p.apply([['AddColumn', 'T', 'S', {'isFormula': True, 'type': 'Any', 'formula': 'T_summary_A.lookupOne(A=$A).count'}]])
     cols = p.call('verif_py', 'props.C29_inproc', 'columns')
     priv = [c for c in cols['T'] if c.startswith('#')]
     calls = []
     for c in priv + ['S', 'Bad']:
       for row in (1, 4, 0, 5, 77):
+        if c.startswith('#lookup') and row not in (1, 4):
+          continue              # open finding lookup_index_touched_by_formula_evaluation, see scenario_lookup_helper
         calls.append(['get_formula_error', 'T', c, row])
         calls.append(['evaluate_formula', 'T', c, row])
     for st in ('T_summary_A', 'T_summary_B', 'T_summary'):
@@ -469,6 +481,27 @@ def scenario_group_evaluation(acc):
     r, err = p.try_apply([['Calculate']])
     if err is None and not d and only_removals_of(r.stored, 'T_summary_A'):
       acc.violation('auto_remove_left_by_group_evaluation', 'witness: Calculate after get_formula_error(T_summary_A, group, 9) emitted %s' % r.stored[:2],
+                    {'stored': r.stored})
+    elif err is not None or d or r.stored:
+      acc.violation('calculate_emits:get_formula_error', 'witness history: %s %s %s' % (err and err.text[:200], d[:2], r and r.stored[:2]), {})
+
+
+def scenario_lookup_helper(acc):
+  """Witness of the open finding lookup_index_touched_by_formula_evaluation."""
+  with EngineProc() as p:
+    p.init_doc()
+    p.apply([['AddTable', 'T', [{'id': 'A', 'type': 'Int', 'isFormula': False}, {'id': 'N', 'type': 'Any', 'isFormula': True, 'formula': 'len(T.all)'}]]])
+    p.apply([['BulkAddRecord', 'T', [None, None], {'A': [1, 2]}]])
+    S0 = snapshot.take(p)
+    acc.count('witness_runs')
+    try:
+      p.call('get_formula_error', 'T', '#lookup#', 0)
+    except EngineError:
+      return
+    d = snapshot.diff(S0, snapshot.take(p))
+    r, err = p.try_apply([['Calculate']])
+    if err is None and not d and r.stored and all(a[1] == 'T' and a[0] in ('BulkUpdateRecord', 'UpdateRecord') and list(a[3]) == ['N'] for a in r.stored):
+      acc.violation('lookup_index_touched_by_formula_evaluation', "witness: Calculate after get_formula_error(T, '#lookup#', 0) emitted %s" % r.stored[:2],
                     {'stored': r.stored})
     elif err is not None or d or r.stored:
       acc.violation('calculate_emits:get_formula_error', 'witness history: %s %s %s' % (err and err.text[:200], d[:2], r and r.stored[:2]), {})
@@ -532,3 +565,4 @@ def run_shard(spec, acc):
   h = histories.History(acc, spec['hseed'], [mon], spec['steps'], weights=WEIGHTS, flags=FLAGS, avoid_open_triggers=False)
   h.gen.fgen = SideEffectFormulaGen(h.rnd, off=h.gen.flags['formula_off'])
   h.run()
+  acc.count('skipped_listed_lookup_helper_trigger', getattr(mon.gen, 'skipped_lookup_trigger', 0))
